@@ -1,6 +1,7 @@
 package props
 
 import (
+	"encoding/json"
 	"fmt"
 	"sort"
 	"strings"
@@ -47,6 +48,9 @@ func leafFor(plan *pg.Plan, dumpPath string) *pg.Leaf {
 	return best
 }
 
+// behAllowNil is set while the archive of the open nil-dereference finding is re-judged.
+var behAllowNil bool
+
 func behaviouralJudge(env *hx.Env, p *pg.Prog, files hx.Files, nValues int, seed uint64) *behResult {
 	res := &behResult{}
 	res.S = structuralJudge(env, p, files, true)
@@ -65,7 +69,11 @@ func behaviouralJudge(env *hx.Env, p *pg.Prog, files hx.Files, nValues int, seed
 		if plan == nil {
 			continue
 		}
-		dms = append(dms, &pg.DriverMethod{Plan: plan, Chosen: s.Chosen[m.Name]})
+		dms = append(dms, &pg.DriverMethod{Plan: plan, Chosen: s.Chosen[m.Name], AllowNil: behAllowNil})
+	}
+	nilRisk := map[string]bool{}
+	for _, dm := range dms {
+		nilRisk[dm.Plan.Method.Name] = dm.NilRisk()
 	}
 	res.Cases = pg.EmitCases(p, dms)
 	rep, raw, err := pg.RunDriver(s.Dir, res.Cases, nValues, seed)
@@ -103,6 +111,12 @@ func behaviouralJudge(env *hx.Env, p *pg.Prog, files hx.Files, nValues int, seed
 		switch is.Kind {
 		case "panic":
 			bi.Property, bi.Class, bi.Symptom = "C02", "call", "panic:"+pg.NormalizeCompilerMsg(is.Detail)
+			if nilRisk[is.Method] {
+				// the method dereferences a pointer on an explicit source path or calls String() on a
+				// pointer / interface: a distinct construct class (open finding), so that a nil dereference
+				// anywhere else keeps its own fingerprint
+				bi.Class = "call@explicit-path-through-pointer-or-String-on-nilable"
+			}
 		case "dst-diff":
 			bi.Property, bi.Class, bi.Symptom = "C02", "field", "value-differs"
 			if plan != nil {
@@ -239,6 +253,10 @@ func runBehavioural(t *testing.T, o behOpts) {
 		if err != nil {
 			return hx.Failf("harness|bad-meta", "%v", err)
 		}
+		var pm progMeta
+		_ = json.Unmarshal(c.Meta, &pm)
+		behAllowNil = pm.AllowNil
+		defer func() { behAllowNil = false }()
 		_, v := judge(p, c.Files)
 		return v
 	}
